@@ -24,6 +24,11 @@ from symx.runner import Job, held, violated, inconclusive
 PROP = "C11"
 REAL_EQ = "REAL-EQUATIONS"
 MODEL_EQ = "MODEL-EQUATIONS"
+MODEL2_EQ = "SECOND-MODEL-EQUATIONS"
+
+
+def eq_id(eq):
+    return 0 if eq is REAL_EQ else (1 if eq is MODEL_EQ else 2)
 
 
 class Ode:
@@ -77,7 +82,7 @@ def fom(variant):
         return Ode(start.case, equations)
 
     def j_from_ode(ode, state_dim, sdj, gamma):
-        return SymReal(J(z3.IntVal(ode.case), z3.IntVal(0 if ode.eq is REAL_EQ else 1)))
+        return SymReal(J(z3.IntVal(ode.case), z3.IntVal(eq_id(ode.eq))))
 
     def diff_from_ode(ode, state_dim):
         return (("sc", ode.case, ode.eq), ("df", ode.case, ode.eq))
@@ -105,6 +110,45 @@ def fom(variant):
 
 class Case(SymArray):
     pass
+
+
+MODELLED = ("steps", "time", "training", "results", "equations", "controller", "controller_dim", "collection_sc", "collection_df", "collect",
+            "state_dims_in_j", "gamma")
+_HIDDEN = {}
+
+
+def _real_instance():
+    from moptipyapps.dynamic_control.controllers.linear import linear
+    from moptipyapps.dynamic_control.instance import Instance
+    from moptipyapps.dynamic_control.system import System
+    from moptipyapps.dynamic_control.systems.stuart_landau import STUART_LANDAU_4 as base
+    sysm = System(base.name, base.state_dims, base.control_dims, base.state_dim_mod, base.state_dims_in_j, base.gamma,
+                  base.test_starting_states, base.training_starting_states, 30, 3.0, 30, 3.0, base.plot_examples)
+    sysm.equations = base.equations
+    return Instance(sysm, linear(sysm))
+
+
+def hidden_attrs(supports):
+    """private fields of the working tree's FigureOfMerit that the abstract state does not model (none on the pinned tree): each gets
+    the value the REAL constructor gives it (the system's equations object is mapped to the token of the real equations); the states
+    such a field reaches later are covered by the operation-sequence job"""
+    if supports in _HIDDEN:
+        return _HIDDEN[supports]
+    import moptipyapps.dynamic_control.objective as ob
+    inst = _real_instance()
+    o = ob.FigureOfMerit(inst, supports)
+    pre = "_FigureOfMerit__"
+    res = {}
+    for k, v in vars(o).items():
+        if k.startswith(pre) and k[len(pre):] not in MODELLED:
+            if v is inst.system.equations:
+                res[k] = REAL_EQ
+            elif v is None or isinstance(v, (bool, int, float, str)):
+                res[k] = v
+            else:
+                raise NotImplementedError(f"private field {k} of an unmodelled kind ({type(v).__name__})")
+    _HIDDEN[supports] = res
+    return res
 
 
 def make_state(Obj, eng, ncases, supports, eq, coll_len, garbage=True, collect=None):
@@ -138,6 +182,8 @@ def make_state(Obj, eng, ncases, supports, eq, coll_len, garbage=True, collect=N
     setattr(o, p + "collect", bool(supports and eq is REAL_EQ) if collect is None else bool(collect))
     setattr(o, p + "state_dims_in_j", 2)
     setattr(o, p + "gamma", 0.1)
+    for k, v in hidden_attrs(bool(supports)).items():
+        setattr(o, k, v)
     return o
 
 
@@ -202,7 +248,7 @@ def job_ops(variant, ncases):
         def ev(eng):
             o = make_state(Obj, eng, ncases, supports, eq, L, collect=col)
             val = o.evaluate("X")
-            spec, oks = spec_value(J, variant, ncases, 0 if eq is REAL_EQ else 1)
+            spec, oks = spec_value(J, variant, ncases, eq_id(eq))
             eng.oblige(lift(val) == spec, f"evaluate returns spec(x, equations) {tag}", now=True)
             eng.oblige(z3.Or(lift(val) == lift(1e200), z3.And(lift(val) >= 0, lift(val) <= lift(1e100))), f"value in [0,1e100] or 1e200 {tag}", now=True)
             for q in invariant(o, supports):
@@ -304,6 +350,75 @@ def job_ops(variant, ncases):
     return held(summary=f"FigureOfMerit{'LE' if variant == 'le' else ''}: 5 operations x {stats['states']} abstract states x {ncases} training cases: invariant and semantics hold ({stats['paths']} paths)", **common)
 
 
+def job_seq(variant):
+    """every sequence of up to three mode operations (initialize, set_raw, set_model with two different models or the system's own
+    equations) on an object in its constructed state, then evaluate: the state each operation must establish and the value of the
+    final evaluation.  Reaches the states of private fields that the one-operation jobs hold at their constructed value."""
+    Obj, J, ob = fom(variant)
+    p = "_FigureOfMerit__"
+    ops = ["initialize", "set_raw", ("set_model", MODEL_EQ), ("set_model", MODEL2_EQ), ("set_model", REAL_EQ)]
+    problems = []
+    stats = dict(paths=0, sat=0, unsat=0, unknown=0, solver=0.0, seqs=0)
+    for n in (1, 2, 3):
+        for seq in itertools.product(ops, repeat=n):
+            stats["seqs"] += 1
+            tag = "[" + " -> ".join(o if isinstance(o, str) else "set_model(" + ("model1" if o[1] is MODEL_EQ else "model2" if o[1] is MODEL2_EQ else "system equations") + ")" for o in seq) + " -> evaluate]"
+
+            def fn(eng, seq=seq, tag=tag):
+                o = make_state(Obj, eng, 1, True, REAL_EQ, 0, collect=True)
+                cur, col = REAL_EQ, True
+                for op in seq:
+                    if op == "initialize":
+                        o.initialize()
+                        cur, col = REAL_EQ, True
+                        if len(getattr(o, p + "collection_sc")) != 0:
+                            eng.oblige(False, f"initialize does not clear the collected data {tag}", now=True)
+                    elif op == "set_raw":
+                        o.set_raw()
+                        cur, col = REAL_EQ, True
+                    else:
+                        o.set_model(op[1])
+                        cur, col = op[1], False
+                    for q in invariant(o, True):
+                        eng.oblige(False, f"invariant broken: {q} {tag}", now=True)
+                    if getattr(o, p + "equations") is not cur:
+                        eng.oblige(False, f"after {op} the objective does not use the {'real' if cur is REAL_EQ else 'given model'} equations {tag}", now=True)
+                    if bool(getattr(o, p + "collect")) != col:
+                        eng.oblige(False, f"after {op} data collection is {'off' if col else 'on'} {tag}", now=True)
+                before = len(getattr(o, p + "collection_sc"))
+                val = o.evaluate("X")
+                spec, oks = spec_value(J, variant, 1, eq_id(cur))
+                eng.oblige(lift(val) == spec, f"evaluate returns spec(x, equations) {tag}", now=True)
+                sc = getattr(o, p + "collection_sc")
+                if not col and len(sc) != before:
+                    eng.oblige(False, f"training data grew during a model evaluation {tag}", now=True)
+                if any(e[2] is not REAL_EQ for e in sc):
+                    eng.oblige(False, f"collected data not from the real system {tag}", now=True)
+                return "seq"
+            eng = Engine(timeout_ms=60000)
+            ok = eng.explore(fn)
+            stats["paths"] += eng.paths
+            stats["sat"] += eng.n_sat
+            stats["unsat"] += eng.n_unsat
+            stats["unknown"] += eng.unknown
+            stats["solver"] += eng.t_solver
+            if eng.violations:
+                problems.append(eng.violations[0].label)
+            elif not ok:
+                problems.append(f"exploration not conclusive {eng.stats()}")
+            if len(problems) >= 4:
+                break
+    common = dict(paths=stats["paths"], queries=dict(sat=stats["sat"], unsat=stats["unsat"], unknown=stats["unknown"]), solver_s=round(stats["solver"], 2),
+                  sample=dict(variant=variant, sequences=stats["seqs"], unmodelled_private_fields=sorted(hidden_attrs(True))))
+    if problems:
+        bad, info = battery()
+        w = dict(kind="seq", variant=variant, problems=problems[:4], observed=info)
+        if bad:
+            return violated("pure_function_of_parameters", "dynamic_control/objective.py", f"{problems[0]}; on the real objects: {info}", w, validated=1, **common)
+        return inconclusive(f"operation-sequence finding not reproduced by the concrete operation battery: {problems[:3]}", **common)
+    return held(summary=f"FigureOfMerit{'LE' if variant == 'le' else ''}: {stats['seqs']} sequences of up to 3 mode operations from the constructed state, then evaluate: states and values as specified ({stats['paths']} paths)", **common)
+
+
 def replay(w):
     return battery()
 
@@ -381,6 +496,26 @@ def battery():
             exp_rows = len(f3.get_differentials()[0])
             if got_rows != exp_rows:
                 probs.append(f"{cls.__name__}: after set_model(system.equations) and {back}() the objective recorded {got_rows} rows, a fresh objective with the same raw evaluations records {exp_rows}")
+        # two models in a row (no set_raw in between), then back: later real-system values and data as for a fresh objective
+
+        def model_eq2(state, t, control, out):
+            out[0] = -2.0 * state[0] + control[0]
+            out[1] = -0.5 * state[1]
+        for back in ("set_raw", "initialize"):
+            o = fresh()
+            o.evaluate(xs[0])
+            o.set_model(model_eq)
+            o.evaluate(xs[1])
+            o.set_model(model_eq2)
+            o.evaluate(xs[1])
+            getattr(o, back)()
+            v = o.evaluate(xs[1])
+            if v != ref[1]:
+                probs.append(f"{cls.__name__}: after set_model(m1), set_model(m2), {back}() the value of x={xs[1].tolist()} is {v}, a fresh objective returns {ref[1]}")
+            f3 = fresh(); f3.evaluate(xs[0]) if back == "set_raw" else None; f3.evaluate(xs[1])
+            a, b = o.get_differentials()[0], f3.get_differentials()[0]
+            if a.shape != b.shape or not np.array_equal(a, b):
+                probs.append(f"{cls.__name__}: after set_model(m1), set_model(m2), {back}() the recorded training data {a.shape} differs from that of a fresh objective with the same raw evaluations {b.shape}")
         o2 = cls(inst, False)
         try:
             o2.set_model(model_eq)
@@ -407,6 +542,7 @@ def job_battery():
 def jobs(tier):
     js = [Job("battery", job_battery, {}, "pure_function_of_parameters", 900)]
     for variant in ("plain", "le"):
+        js.append(Job(f"seq/{variant}", job_seq, dict(variant=variant), "pure_function_of_parameters", 900))
         for nc in (1, 2, 3) + ((4,) if tier == "thorough" else ()):
             js.append(Job(f"ops/{variant}/cases{nc}", job_ops, dict(variant=variant, ncases=nc), "pure_function_of_parameters", 900))
     return js
